@@ -13,6 +13,7 @@ import CB.Lemmas.C02LimbDiv
 import CB.Lemmas.C02Rows
 import CB.Lemmas.C02Div3by2
 import CB.Lemmas.C02Knuth
+import CB.Lemmas.C02KnuthCt
 namespace CB.P02
 open CB CB.Div
 
@@ -186,5 +187,64 @@ theorem vartime_forms_exact_partial (H_recip : HRecip) {n d : List Nat} (hn : WF
     wrappingDivVartime n d = toLimbs n.length (val n / val d) := by
   unfold remVartime wrappingDivVartime
   rw [divRemVartime_spec H_recip hn hd hd0]; exact ⟨rfl, rfl⟩
+
+/-- T02.4 (loop invariant, constant time) the active phase of `while xi > 0` from `xi = low + j`
+    down to `low` (`low = max(dwords − 1, 1)`): every iteration is one exact digit; the state that
+    reaches the `done` phase holds the partial remainder `R < Y_low` in `r`, `x_hi` and the digits
+    `ds` with `W = R + Y_low · val ds`. -/
+theorem ctLoop_active_exact {rc : Reciprocal} (ok : RcOK rc) {y : List Nat} {L dwords low Ylow : Nat}
+    (hy : WF y) (hyl : y.length = L) (hv1 : y.getD (L - 1) 0 = rc.divisorNormalized)
+    (hlow1 : 1 ≤ low) (hlowd : dwords - 1 ≤ low)
+    (hY : ∀ xi, low ≤ xi → xi + 1 ≤ L → val (y.drop (L - xi - 1)) = Ylow * B ^ (xi - low))
+    (j : Nat) (win Q : List Nat) (xHi : Nat) (hL : low + j + 1 ≤ L) (hwin : win.length = low + j + 1)
+    (hw : WF win) (hxHi : xHi < B) (hW : val win + B ^ (low + j + 1) * xHi < Ylow * B ^ j * B) :
+    ∃ r ds xHi', ctLoop rc y L dwords (low + j) ⟨win ++ Q, xHi, win.getD (low + j) 0⟩ =
+        ctLoop rc y L dwords (low - 1) ⟨r ++ ds ++ Q, xHi', r.getD (low - 1) 0⟩ ∧
+      r.length = low ∧ ds.length = j + 1 ∧ WF r ∧ WF ds ∧ xHi' < B ∧
+      val r + B ^ low * xHi' < Ylow ∧
+      val win + B ^ (low + j + 1) * xHi = val r + B ^ low * xHi' + Ylow * val ds :=
+  ctLoop_active ok hy hyl hv1 hlow1 hlowd hY j win Q xHi hL hwin hw hxHi hW
+
+/-- T02.4 (done part, loop) iterations with `xi < dwords − 1` leave the whole state untouched. -/
+theorem ctLoop_done_noop {rc : Reciprocal} {y : List Nat} {L dwords : Nat} (hy : WF y) (hyl : y.length = L)
+    (xi : Nat) (st : CtState) (h1 : xi < dwords - 1) (h2 : xi + 1 ≤ L) (h3 : WF st.x) (h4 : st.x.length = L)
+    (h5 : st.xHi < B) (h6 : st.xLo < B) : ctLoop rc y L dwords xi st = st :=
+  ctLoop_done hy hyl xi st h1 h2 h3 h4 h5 h6
+
+/-- T02.6 `Uint::div_rem` (= `BoxedUint::div_rem_unchecked` on equal precisions) is exact for EVERY
+    limb count `≥ 1`, every dividend and every non-zero divisor: the `LIMBS == 1` short cut, the
+    top-aligned divisor `rhs.shl(BITS − dbits)`, the normalisation `shl_limb`, the constant-time loop
+    with its `done` iterations, the single-limb tail through `div2by1` with the zeroed `x_hi`, the
+    copy-out loop and the two final right shifts.  Only H_recip is assumed. -/
+theorem divRemCt_exact_partial (H_recip : HRecip) {n d : List Nat} (hn : WF n) (hd : WF d)
+    (hl : d.length = n.length) (hd0 : val d ≠ 0) :
+    divRemCt n d = (toLimbs n.length (val n / val d), toLimbs n.length (val n % val d)) :=
+  divRemCt_spec H_recip hn hd hl hd0
+
+/-- T02.6b all constant-time forms: `rem`, `wrapping_div`, operators, `checked_div`, `checked_rem`,
+    and the boxed `div_rem` on equal precisions. -/
+theorem ct_forms_exact_partial (H_recip : HRecip) {n d : List Nat} (hn : WF n) (hd : WF d)
+    (hl : d.length = n.length) (hd0 : val d ≠ 0) :
+    urem n d = toLimbs n.length (val n % val d) ∧ wrappingDiv n d = toLimbs n.length (val n / val d) ∧
+    checkedDiv n d = some (toLimbs n.length (val n / val d)) ∧
+    checkedRem n d = some (toLimbs n.length (val n % val d)) ∧
+    boxedDivRem n d = some (toLimbs n.length (val n / val d), toLimbs n.length (val n % val d)) := by
+  have h := divRemCt_spec H_recip hn hd hl hd0
+  refine ⟨?_, ?_, ?_, ?_, ?_⟩
+  · unfold urem; rw [h]
+  · unfold wrappingDiv; rw [h]
+  · simp [checkedDiv, hd0, h]
+  · simp [checkedRem, hd0, h]
+  · simp [boxedDivRem, hl, h]
+
+/-! ### non-vacuity: the hypotheses of the main theorems are satisfiable by non-trivial inputs -/
+
+example : WF [5, 7, 9] ∧ WF [0, 3, 0] ∧ [0, 3, 0].length = [5, 7, 9].length ∧ val [0, 3, 0] ≠ 0 := by
+  refine ⟨?_, ?_, rfl, by decide⟩ <;> intro x hx <;> simp at hx <;> rcases hx with rfl | rfl | rfl <;> decide
+
+example : ∃ xs ys : List Nat, ∃ xHi : Nat, xs.length = 2 ∧ ys.length = 2 ∧ WF xs ∧ WF ys ∧ xHi < B ∧
+    HALF ≤ ys.getD 1 0 ∧ val xs + B ^ 2 * xHi < val ys * B :=
+  ⟨[1, 2], [3, HALF], 5, rfl, rfl, by intro x hx; simp at hx; rcases hx with rfl | rfl <;> decide,
+    by intro x hx; simp at hx; rcases hx with rfl | rfl <;> decide, by decide, by decide, by decide⟩
 
 end CB.P02
